@@ -50,7 +50,7 @@ func c04Alphabet() []c04op {
 	bodyB := []byte{0x11, 0x20, 0, 0, 0, 0, 0, 0, 0x30, 0x39}
 	bodyC := []byte{0x03, 'e', 't', 'h', 10, 0, 0, 1} // valid under C only by accident of lengths; under A: 5 + 3 padding
 	var ops []c04op
-	for _, d := range []uint32{1, 0} { // 0 is an ordinary observation domain id for scoping purposes
+	for _, d := range []uint32{65536, 0} { // 0 is an ordinary observation domain id; the two differ only above the low 16 bits
 		for _, id := range []uint16{256, 257} {
 			h := refcodec.Header{ExportTime: 1000 + d, Seq: uint32(id), Domain: d}
 			n := func(k string) string { return fmt.Sprintf("%s(d%d,%d)", k, d, id) }
@@ -85,12 +85,12 @@ func c04Alphabet() []c04op {
 		ops = append(ops,
 			// template record (id 2, field count 0): RFC 7011 8.1 "all templates withdrawal"
 			c04op{name: fmt.Sprintf("Withdraw_all?(d%d)", d), msg: refcodec.Msg(hd, 2, []byte{0, 2, 0, 0}), probe: true, dom: d})
-		if d == 1 {
+		if d == 65536 {
 			ops = append(ops,
 				// template record (id 256, field count 0): withdrawal of one template
 				c04op{name: fmt.Sprintf("Withdraw?(d%d,256)", d), msg: refcodec.Msg(hd, 2, []byte{1, 0, 0, 0}), probe: true, dom: d},
 				// a known variable-length octetArray element announced with a fixed width of 4
-				c04op{name: "T_announced_oct(d1,256)", msg: refcodec.TemplateMsg(refcodec.Header{ExportTime: 1001, Seq: 256, Domain: 1}, refcodec.Template{ID: 256, Fields: []refcodec.FieldSpec{{ID: 313, Len: 4}, {ID: 4, Len: 1}}})})
+				c04op{name: "T_announced_oct(d65536,256)", msg: refcodec.TemplateMsg(refcodec.Header{ExportTime: 1001, Seq: 256, Domain: 65536}, refcodec.Template{ID: 256, Fields: []refcodec.FieldSpec{{ID: 313, Len: 4}, {ID: 4, Len: 1}}})})
 		}
 	}
 	return ops
@@ -104,7 +104,7 @@ func c04Alphabet() []c04op {
 func c04Probes(ops []c04op) []c04op {
 	var out []c04op
 	for _, o := range ops {
-		for _, k := range []string{"T_A(d0,256)", "T_A(d1,256)", "T_B(d1,257)", "D_A(d0,256)", "D_A(d1,256)", "D_B(d1,257)", "Bad_trunc(d1,256)", "Withdraw"} {
+		for _, k := range []string{"T_A(d0,256)", "T_A(d65536,256)", "T_B(d65536,257)", "D_A(d0,256)", "D_A(d65536,256)", "D_B(d65536,257)", "Bad_trunc(d65536,256)", "Withdraw"} {
 			if strings.HasPrefix(o.name, k) {
 				out = append(out, o)
 			}
@@ -126,7 +126,7 @@ func c04NoProbes(ops []c04op) []c04op {
 func c04Deep(ops []c04op) []c04op {
 	var out []c04op
 	for _, o := range ops {
-		for _, k := range []string{"T_A(d1,", "T_B(d1,", "Bad_trunc(d1,", "D_A(d1,", "D_B(d1,"} {
+		for _, k := range []string{"T_A(d65536,", "T_B(d65536,", "Bad_trunc(d65536,", "D_A(d65536,", "D_B(d65536,"} {
 			if strings.HasPrefix(o.name, k) {
 				out = append(out, o)
 			}
@@ -421,7 +421,7 @@ func runC04(tier, replay string) int {
 	cov["samples"] = samples
 	cov["evaluations"] = traces
 	cov["distinct_nontrivial"] = interesting
-	cov["rule"] = "pass (a): every history of the 57-message alphabet (2 domains, one of them 0, x 2 ids x {6 valid templates incl. one that extends another, one that differs only in enterprise number and one announcing a non-registry width, 5 bad templates (two of them valid in the lenient modes, announcing one unknown element with two widths), 3 data bodies}) up to hist_depth, replayed on a fresh collector in lock-step with the tmplstore/refcodec model; pass (b): BFS de-duplicated on the collector's template-table snapshot until the graph closes; probe pass: every history up to depth 4 (thorough 5) over an 11-message alphabet containing template records with a field count of 0 (RFC 7011 withdrawals; the pinned library stores an empty template): whatever such a message does in its own observation domain, the tables of the other domains must be unchanged; deep pass: every history up to deep_depth over a 10-message sub-alphabet (one domain, two ids x {2 templates, 1 bad template, 2 bodies}) in strict/tcp and drop/udp, for state the table snapshot does not show. distinct_nontrivial = distinct reachable template tables with at least one template"
+	cov["rule"] = "pass (a): every history of the 57-message alphabet (2 domains, 0 and 65536, x 2 ids x {6 valid templates incl. one that extends another, one that differs only in enterprise number and one announcing a non-registry width, 5 bad templates (two of them valid in the lenient modes, announcing one unknown element with two widths), 3 data bodies}) up to hist_depth, replayed on a fresh collector in lock-step with the tmplstore/refcodec model; pass (b): BFS de-duplicated on the collector's template-table snapshot until the graph closes; probe pass: every history up to depth 4 (thorough 5) over an 11-message alphabet containing template records with a field count of 0 (RFC 7011 withdrawals; the pinned library stores an empty template): whatever such a message does in its own observation domain, the tables of the other domains must be unchanged; deep pass: every history up to deep_depth over a 10-message sub-alphabet (one domain, two ids x {2 templates, 1 bad template, 2 bodies}) in strict/tcp and drop/udp, for state the table snapshot does not show. distinct_nontrivial = distinct reachable template tables with at least one template"
 	cov["exhaustive"] = exhaustive && closedAll
 	cov["closed"] = closedAll
 	cov["per_config"] = perCfg
